@@ -52,6 +52,9 @@ def run(run, replay=None):
     quick = run.tier == 'quick'
     cfg = ('SPECIFICATION Spec\nCONSTANTS MaxLen = %d Alphabet = {%s} NLSeq <- %s\nINVARIANT Lossless\n'
            'INVARIANT Terminated\nINVARIANT Counted\nINVARIANT TwoModes\nCHECK_DEADLOCK FALSE\n')
+    run.mc('MC_Split', 'SPECIFICATION Spec\nCONSTANTS MaxLen = %d Alphabet = {10, 13, 0} NLSeq <- NL_CRLF\nINVARIANT FindAgree\n'
+                       'CHECK_DEADLOCK FALSE\n' % (6 if quick else 8),
+           note='the recursive and the comprehension formulation of Bytes!Find agree (all strings, patterns, start positions)', workers=8)
     cases = []
     cid = 0
     for name, alpha, mx in plan(quick):
